@@ -363,6 +363,13 @@ func (e *Exec) scenarioShape(path string, t types.Type, a string) ([]altFn, bool
 			}
 			return Iface{Dyn: absLoaderType, V: Opaque{Tag: "scenario-loader"}}
 		}, a)
+	case "objdefault": // objdefault(key): a decoded JSON object {key: "od"} held in an interface (an object-level default)
+		return one(func(s *State) Val {
+			mt := types.NewMap(types.Typ[types.String], types.NewInterfaceType(nil, nil).Complete())
+			mc := s.alloc(&MapAgg{Tag: path, Keys: []Val{atom(args[0])}, Vals: []Val{Iface{Dyn: types.Typ[types.String], V: lit("od")}}})
+			delete(s.Fresh, mc.Cell)
+			return Iface{Dyn: mt, V: MapV{Cell: mc.Cell}}
+		}, a)
 	case "emptymap": // a non-nil map without entries
 		return one(func(s *State) Val {
 			mc := s.alloc(&MapAgg{Tag: path})
